@@ -18,6 +18,14 @@ def run(rec):
     recipes = getattr(cm, 'RECIPES', {})
     refs = {}
     args = {k: runtime.from_json(v, recipes, refs) for k, v in rec['inputs'].items()}
+    for combo in c.kind_combinations():        # parameters that are another argument / computed from the others
+        for k, s in combo.items():
+            if type(s).__name__ == 'SameAsT' and k in args:
+                args[k] = args[s.ref]
+        for k, s in combo.items():
+            if type(s).__name__ == 'DerivedT' and getattr(s, 'native', None) is not None and k in args:
+                args[k] = s.native(args)
+        break
     r = runtime.check_call(c, args, only=[rec['clause']] if rec.get('clause') else None)
     out = {'pre': r['pre'], 'failed': r['failed'], 'checked': r['checked']}
     if r['outcome'] is not None:
